@@ -1687,7 +1687,9 @@ func (c *Client) WrapRoundTrip(wrappers ...RoundTripWrapper) *Client {
 		return c
 	}
 	if c.wrappedRoundTrip == nil {
-		c.roundTripWrappers = wrappers
+		// keep a copy: wrappers may be the caller's own slice (WrapRoundTrip(ws...)),
+		// and Clone rebuilds the chain from this list
+		c.roundTripWrappers = cloneSlice(wrappers)
 		c.wrappedRoundTrip = roundTripImpl{c}
 	} else {
 		c.roundTripWrappers = append(c.roundTripWrappers, wrappers...)
